@@ -18,6 +18,7 @@ THEOREMS = [
     "varint_roundtrip", "varint_guard_forced", "varints_roundtrip", "le_roundtrip",
     "shouldFinish_new", "block_roundtrip_plain_of", "block_roundtrip_plain_fixed", "block_roundtrip_nullable", "block_roundtrip_plain_char",
     "block_roundtrip_rle", "block_roundtrip_dict", "block_roundtrip_blob", "column_roundtrip", "column_roundtrip_exact",
+    "iter_refines_slice_partial", "iter_refines_slice_scan",
     "nonnullable_null_witness", "nullable_cross_block_witness", "char_embedded_nul_witness",
     "rle_eq_not_identity_witness", "cut_concat", "cut_blocks_nonempty", "index_exact", "index_covers",
 ]
@@ -412,7 +413,7 @@ def run(ck):
         "samples": [r[:300] for r in gen_lines[:3] + corpus[:2]],
         "model_vs_impl": mvi, "impl_vs_oracle": ivo, "model_vs_oracle": mvo,
         "not_modelled_byte_exact": ["decimal", "interval", "timestamp", "vector"],
-        "unproved": ["iter_refines_slice (positive statement for reads that stay inside a block or on non-nullable / RLE / dictionary columns)"],
+        "unproved": ["iter_refines_slice for programs with skip / a start row > 0 (skip_inner, fake iterator, block_of_row) and for plain-nullable columns under the fetch_hint discipline: covered by the correspondence run only"],
     })
     return ck.finish(level="proof", checker_cmd="translator/gen_consts.py; lake build RlModel.Thm.C06 drv_c06; #print axioms audit",
                      trusted_base=["Lean 4 kernel (axioms: propext, Classical.choice, Quot.sound)",
